@@ -14,10 +14,16 @@
 //            + RelinkPublicSubkeys / Export), PublicKeyringParse (+List/Check/Reduce/Find), SignatureParse (+Good,
 //            CheckValidity, PrintInfo, VerifyData against the seed key), SignaturesParse
 //   message: MessageParse, PKESK decryption with the seed private key, Message::Decrypt, nested MessageParse, CheckMDC
+//   message also: AEAD encrypted data (tag 20, OCB) built with SymmetricEncryptAEAD / PacketAeadEncode and decrypted with the session
+//            key the receiver has: chunk size octets 0 and 10 with the whole catalogue, and 5 MiB of AEAD data with the chunk size
+//            octet set to 10, 16, 21, 255 (thorough: 13 values)
+//   key / packet also: version 5 public key packets for every algorithm (seed packets rewritten to v5; EdDSA retagged as ECDSA), a key
+//            block with an unknown-algorithm subkey followed by a second primary key, the key with 0x16 attestation signatures
 // Mutations (binary): at every offset of every packet header and of the first 64 body bytes of every packet (thorough:
 //   every offset of artefacts <= 8 KiB): truncate here, flip bit 0, flip bit 7, set 0x00 / 0xff (thorough: also 0x7f, +1, -1,
 //   delete byte, duplicate byte); per packet: delete, duplicate, swap with next, and the length field rewritten to 0, 1, len-1, len+1,
-//   191/192, 8383/8384, 2^16-1, 2^31, 2^32-1 in one-, two-, five-octet and partial-length encodings.
+//   191/192, 8383/8384, 2^16-1, 2^31, 2^32-1 in one-, two-, five-octet and partial-length encodings; the body cut to every length
+//   0..64 under a consistent header; public-key / hash algorithm octets of key and signature packets set to 0,1,16..22,99,255.
 //   Armored text: byte catalogue (truncate, flip bit 0/7) at every offset + line level delete/duplicate/empty.
 // Oracle: outcome in {refused, accepted, std::exception}; anything else is a violation (see c12_common.hh).
 #include "c12_common.hh"
@@ -252,6 +258,34 @@ static void packet_mutations(const std::string &seed, const std::function<void(c
 			emit(pid + ":swap", "packet-swap", pre + nxt + self + seed.substr(P[i + 1].body + P[i + 1].len));
 		}
 		emit(pid + ":emptybody", "packet-empty", pre + std::string(1, (char)(0xC0 | p.tag)) + std::string(1, '\0') + post);
+		// the body cut to every length 0..64 with a CONSISTENT header (so the per-tag decoder sees exactly L octets); for key
+		// packets these are never thinned (secret keys: all of 0..64, public keys: 0..24)
+		{
+			bool key = p.tag == 5 || p.tag == 6 || p.tag == 7 || p.tag == 14, sec = p.tag == 5 || p.tag == 7;
+			for (size_t L = 0; L <= 64 && L < p.len; L++)
+			{
+				bool exempt = key && (sec || L <= 24);
+				emit((exempt ? "x" : "") + pid + ":body" + str(L), "body-truncate",
+					pre + std::string(1, (char)(0xC0 | p.tag)) + std::string(1, (char)L) + body.substr(0, L) + post);
+				if (thorough || exempt)
+					emit((exempt ? "x" : "") + pid + ":bodylast" + str(L), "body-truncate",
+						pre + std::string(1, (char)(0xC0 | p.tag)) + std::string(1, (char)L) + body.substr(0, L));
+			}
+		}
+		// algorithm octets of key and signature packets set to unknown / other values (never thinned)
+		{
+			static const unsigned char av[] = { 0, 1, 16, 17, 18, 19, 22, 99, 255 };
+			size_t pos[2] = { std::string::npos, std::string::npos };
+			if ((p.tag == 5 || p.tag == 6 || p.tag == 7 || p.tag == 14) && p.len > 5) pos[0] = 5;          // pkalgo
+			if (p.tag == 2 && p.len > 3 && (body[0] == 4 || body[0] == 5)) pos[0] = 2, pos[1] = 3;         // pkalgo, hashalgo
+			for (int w = 0; w < 2; w++)
+				for (size_t a = 0; pos[w] != std::string::npos && a < sizeof av; a++)
+				{
+					std::string b2 = body;
+					b2[pos[w]] = (char)av[a];
+					emit("x" + pid + (w ? ":hashalgo" : ":pkalgo") + str((unsigned)av[a]), "algorithm", pre + seed.substr(p.hdr, p.body - p.hdr) + b2 + post);
+				}
+		}
 		// every tag value with this body
 		for (unsigned t = 0; t < 64; t++)
 			if (t != p.tag && (thorough || t < 21 || t >= 60))
@@ -347,10 +381,32 @@ static void packet_mutations(const std::string &seed, const std::function<void(c
 	}
 }
 
+// every public (sub)key packet of a blob rewritten as a version 5 packet (same key material, 4-octet key material count)
+static std::string to_v5(const std::string &blob, int force_algo = -1)
+{
+	std::vector<Pkt> P = packets(blob);
+	std::string o;
+	for (size_t i = 0; i < P.size(); i++)
+	{
+		const Pkt &p = P[i];
+		std::string body = blob.substr(p.body, p.len);
+		if ((p.tag == 6 || p.tag == 14) && p.len > 6 && body[0] == 4)
+		{
+			std::string b5 = std::string(1, (char)5) + body.substr(1, 5) + be(p.len - 6, 4) + body.substr(6);
+			if (force_algo >= 0) b5[5] = (char)force_algo;
+			o += std::string(1, (char)(0xC0 | p.tag)) + "\xff" + be(b5.size(), 4) + b5;
+		}
+		else
+			o += blob.substr(p.hdr, p.body + p.len - p.hdr);
+	}
+	return o;
+}
+
 // ------------------------------------------------------------------------------------------------ targets
 struct PTarget {
 	Target t;
-	bool binary;
+	bool binary, own_custom;
+	PTarget() : binary(false), own_custom(false) {}
 };
 static std::vector<PTarget> V;
 
@@ -501,9 +557,16 @@ static void build_targets(const std::string &family)
 			PGP::ArmorDecode(EXT_ALICE_SIG, o);
 			blobs.push_back(std::make_pair("alice-sig", strof(o)));
 		}
+		size_t nbase = blobs.size();
+		// version 5 public key packets for every algorithm of the seeds (DSA, ElGamal, EdDSA, ECDH, RSA) and ECDSA (retagged EdDSA)
+		blobs.push_back(std::make_pair("pubblock-v5", to_v5(pubblock)));
+		blobs.push_back(std::make_pair("mallory-ed25519-v5", to_v5(blobs[5].second)));
+		blobs.push_back(std::make_pair("mallory-as-ecdsa-v5", to_v5(blobs[5].second, 19)));
+		blobs.push_back(std::make_pair("davey-v5", to_v5(blobs[6].second)));
 		for (size_t i = 0; i < blobs.size(); i++)
 		{
-			if (!thorough && i >= 6 && i != 8) continue;   // quick: own artefacts, one external key, the V5 secret key
+			if (!thorough && i >= 6 && i != 8 && i < nbase) continue;   // quick: own artefacts, one external key, the V5 secret key, the v5 public keys
+			if (!thorough && i == nbase + 3) continue;
 			add_bin("packet.decode", blobs[i].first, blobs[i].second, [](const std::string &in) { return run_packet_loop(in, 0); });
 			if (i < 1 || thorough)
 			{
@@ -522,11 +585,26 @@ static void build_targets(const std::string &family)
 			return r;
 		};
 		add_bin("pgp.PublicKeyBlockParse", "dsa-elg", pubblock, run_pub);
-		for (size_t i = 0; i < ext.size() && (thorough || i < 1); i++)
+		for (size_t i = 0; i < ext.size() && (thorough || i < 2); i++)   // quick: Ed25519 key and the key with attested certifications (0x16)
 		{
 			tmcg_openpgp_octets_t o;
 			PGP::ArmorDecode(ext[i].second, o);
 			add_bin("pgp.PublicKeyBlockParse", ext[i].first, strof(o), run_pub);
+			if (i == 0)
+				add_bin("pgp.PublicKeyBlockParse", ext[i].first + "-v5", to_v5(strof(o)), run_pub, false);
+		}
+		{
+			// primary key, user ID, valid subkey, then a subkey packet with an unsupported algorithm (99) and a second primary key
+			std::vector<Pkt> P = packets(pubblock);
+			if (P.size() >= 5)
+			{
+				std::string sub = pubblock.substr(P[3].hdr, P[3].body + P[3].len - P[3].hdr), sub99 = sub;
+				sub99[P[3].body - P[3].hdr + 5] = (char)99;
+				std::string prim = pubblock.substr(P[0].hdr, P[0].body + P[0].len - P[0].hdr);
+				std::string seedx = pubblock + sub99 + prim;
+				add_bin("pgp.PublicKeyBlockParse", "dsa-elg-unknownsub-2ndprimary", seedx, run_pub, false);
+				add_bin("pgp.PublicKeyBlockParse", "dsa-elg-unknownsub", pubblock + sub99 + pubblock.substr(P[4].hdr), run_pub, false);
+			}
 		}
 		auto run_prv = [](const std::string &in, const char *pw) {
 			TMCG_OpenPGP_Prvkey *p = NULL;
@@ -627,6 +705,56 @@ static void build_targets(const std::string &family)
 		add_bin("pgp.MessageParse-Decrypt", "pkesk-seipd", msg, run_msg);
 		if (thorough)
 			add_bin("pgp.MessageParse-Decrypt", "pkesk-sed", msg_sed, run_msg, false);
+		// AEAD encrypted data (tag 20) decrypted with the session key the receiver really has
+		{
+			tmcg_openpgp_secure_octets_t seskey;
+			auto build = [&seskey, data](tmcg_openpgp_byte_t c, size_t len) {
+				tmcg_openpgp_octets_t pt, litp, ad, iv, enc, aead;
+				for (size_t i = 0; i < len; i++) pt.push_back((tmcg_openpgp_byte_t)data[i % data.size()]);
+				PGP::PacketLitEncode(pt, litp);
+				ad.push_back(0xD4), ad.push_back(1), ad.push_back(TMCG_OPENPGP_SKALGO_AES256), ad.push_back(TMCG_OPENPGP_AEADALGO_OCB), ad.push_back(c);
+				for (int i = 0; i < 8; i++) ad.push_back(0);
+				if (PGP::SymmetricEncryptAEAD(litp, seskey, TMCG_OPENPGP_SKALGO_AES256, TMCG_OPENPGP_AEADALGO_OCB, c, ad, 0, iv, enc))
+					{ fprintf(stderr, "harness: AEAD encryption failed\n"); exit(2); }
+				PGP::PacketAeadEncode(TMCG_OPENPGP_SKALGO_AES256, TMCG_OPENPGP_AEADALGO_OCB, c, iv, enc, aead);
+				return strof(aead);
+			};
+			std::string small0 = build(0, 150), small10 = build(10, 3000), big = build(4, thorough ? 9000000 : 5000000);
+			auto run_aead = [seskey](const std::string &in) {
+				TMCG_OpenPGP_Message *m = NULL;
+				if (!PGP::MessageParse(oct(in), 0, m)) return 0;
+				int r = 0;
+				tmcg_openpgp_octets_t dec;
+				if (m->Decrypt(seskey, 0, dec))
+				{
+					TMCG_OpenPGP_Message *m2 = NULL;
+					if (PGP::MessageParse(dec, 0, m2)) { r = m2->literal_data.size() > 0 ? 1 : 0; delete m2; }
+				}
+				delete m;
+				return r;
+			};
+			add_bin("pgp.MessageParse-DecryptAEAD", "ocb-chunk0", small0, run_aead);
+			add_bin("pgp.MessageParse-DecryptAEAD", "ocb-chunk10", small10, run_aead);
+			// several MiB of AEAD data: only the chunk size octet is varied (a received message may name any chunk size)
+			add_bin("pgp.MessageParse-DecryptAEAD", "ocb-5MiB-chunkoctet", big, run_aead);
+			PTarget &B = V.back();
+			std::vector<Pkt> P = packets(big);
+			size_t coff = P.empty() ? 0 : P[0].body + 3;
+			bool th = thorough;
+			B.t.custom = [big, coff, th](const std::function<void(const Mutation &)> &f) {
+				static const unsigned char cv[] = { 10, 16, 21, 255, 0, 6, 14, 15, 17, 20, 22, 56, 57 };
+				Mutation m;
+				m.have_ready = true;
+				for (size_t i = 0; i < (th ? sizeof cv : 4); i++)
+				{
+					if ((unsigned char)big[coff] == cv[i]) continue;
+					m.id = "xchunk" + str((unsigned)cv[i]), m.cls = "chunk-size-octet", m.ready = big;
+					m.ready[coff] = (char)cv[i];
+					f(m);
+				}
+			};
+			B.own_custom = true;
+		}
 		add_bin("pgp.MessageParse", "literal", lit, [](const std::string &in) {
 			TMCG_OpenPGP_Message *m = NULL;
 			if (!PGP::MessageParse(oct(in), 0, m)) return 0;
@@ -668,7 +796,9 @@ int main(int argc, char **argv)
 		Target &T = V[i].t;
 		if (!only_target.empty() && T.name != only_target) continue;
 		if (!A.only.empty() && A.only.compare(0, T.name.size() + 1, T.name + "/") != 0) continue;
-		if (V[i].binary)
+		if (V[i].own_custom)
+			run.run_target(T);
+		else if (V[i].binary)
 		{
 			// byte catalogue on the header / first-64 ranges, then the structure-aware packet catalogue (shared de-duplication)
 			Target B = T;
